@@ -1,0 +1,10 @@
+package syntax
+
+// Bits of VerifDisableRewrites.
+const (
+	VerifRewriteAutoAtomic         = 1 << iota // findAndMakeLoopsAtomic
+	VerifRewriteEndingBacktracking             // eliminateEndingBacktracking
+	VerifRewriteBumpalong                      // UpdateBumpalong insertion
+	VerifRewriteAtomicAlternation              // reordering/trimming of atomic alternations
+	VerifRewriteAlternationPrefix              // extractCommonPrefixText / extractCommonPrefixOneNotoneSet
+)
